@@ -38,7 +38,9 @@ impl<'a> TemporalPruner<'a> {
                     s.parse::<i64>().ok().unwrap_or(0)
                 }
             }
-            _ => 0,
+            ScalarValue::Float64(f) if f.is_finite() && f.fract() == 0.0 => *f as i64,
+            // Fractional seconds (or a non-temporal literal) have no bucket to look up: cannot prune
+            _ => return None,
         };
         let cal_ts = ts.max(0);
 
